@@ -256,22 +256,44 @@ def impl_call(name: str, r: List[Fr], s: List[str], light: bool = False) -> str:
 
 
 @_quiet
-def impl_grid(points: List[List[Fr]], quads: List[List[int]], ops: List[list]) -> List[str]:
-    import numpy as np
+def impl_grid(points: List[List[Fr]], quads: List[List[int]], ops: List[list]) -> dict:
+    """Clamp / link / auto_optimize histories on a SketchOptimizer.  After every call: the outcome and, per vertex, which
+    call put the clamp it carries (-1: none) — so a clamp that is replaced shows up even when nothing is raised."""
+    import contextlib
+    import io
 
     import classy_blocks as cb
-    from classy_blocks.optimize.grid import QuadGrid
+    from classy_blocks.construct.flat.sketches.mapped import MappedSketch
+    from classy_blocks.optimize.optimizer import SketchOptimizer
 
-    grid = QuadGrid(np.array([[fl(c) for c in p] for p in points]), [list(q) for q in quads])
-    out = []
-    for op in ops:
+    sketch = MappedSketch([[fl(c) for c in p] for p in points], [list(q) for q in quads])
+    optimizer = SketchOptimizer(sketch, report=False)
+    grid = optimizer.grid
+    owner: Dict[int, int] = {}  # id(clamp object) -> step that first saw it
+    outs, holders = [], []
+    for k, op in enumerate(ops):
         if op[0] == "clamp":
             pos = [fl(c) for c in op[1]]
-            out.append(_outcome(lambda: grid.add_clamp(cb.FreeClamp(pos))))
-        else:
+            outs.append(_outcome(lambda: optimizer.add_clamp(cb.FreeClamp(pos))))
+        elif op[0] == "link":
             lead, foll = [fl(c) for c in op[1]], [fl(c) for c in op[2]]
-            out.append(_outcome(lambda: grid.add_link(cb.TranslationLink(lead, foll))))
-    return out
+            outs.append(_outcome(lambda: optimizer.add_link(cb.TranslationLink(lead, foll))))
+        else:  # the clamping of auto_optimize; zero iterations: the optimisation itself is not C20's subject
+            with contextlib.redirect_stdout(io.StringIO()):
+                outs.append(_outcome(lambda: optimizer.auto_optimize(max_iterations=0)))
+        row = []
+        for j in grid.junctions:
+            if j.clamp is None:
+                row.append(-1)
+            else:
+                row.append(owner.setdefault(id(j.clamp), k))
+        holders.append(row)
+        _keep.append([j.clamp for j in grid.junctions])  # keep the objects alive: ids must stay unique
+    del _keep[:]
+    return {"outs": outs, "holders": holders}
+
+
+_keep: List[Any] = []
 
 
 @_quiet
@@ -766,18 +788,53 @@ def random_cases(rng: random.Random, n: int) -> List[dict]:
     return out
 
 
+def _lattice(nx: int, ny: int, off, jitter=None):
+    """(nx x ny) quads: points row by row, quads, indexes of the non-boundary points"""
+    pts = [[off[0] + i, off[1] + j, off[2]] for j in range(ny + 1) for i in range(nx + 1)]
+    quads = [[j * (nx + 1) + i, j * (nx + 1) + i + 1, (j + 1) * (nx + 1) + i + 1, (j + 1) * (nx + 1) + i] for j in range(ny) for i in range(nx)]
+    interior = [j * (nx + 1) + i for j in range(1, ny) for i in range(1, nx)]
+    if jitter:
+        for k in interior:
+            pts[k] = [pts[k][0] + jitter(), pts[k][1] + jitter(), pts[k][2]]
+    return pts, quads, interior
+
+
+def _grid_case(pts, quads, interior, ops) -> dict:
+    enc = lambda p: [str(_exact(fl(c))) for c in p]
+    ops = [[o[0], *[enc(p) for p in o[1:]]] for o in ops]
+    return {"kind": "grid", "points": [enc(p) for p in pts], "quads": quads, "interior": interior, "ops": ops}
+
+
+def grid_boundary_cases() -> List[dict]:
+    """auto_optimize against clamps that are already there (deterministic)."""
+    out = []
+    for nx, ny in ((2, 2), (3, 2), (3, 3)):
+        pts, quads, interior = _lattice(nx, ny, [Fr(1, 2), Fr(-1, 4), Fr(1)])
+        out.append(_grid_case(pts, quads, interior, [["auto"], ["auto"]]))
+        out.append(_grid_case(pts, quads, interior, [["clamp", pts[0]], ["auto"], ["clamp", pts[1]], ["auto"]]))
+        for k in interior:
+            near = [pts[k][0], pts[k][1] + TOL / 2, pts[k][2]]
+            out.append(_grid_case(pts, quads, interior, [["clamp", pts[k]], ["auto"]]))
+            out.append(_grid_case(pts, quads, interior, [["clamp", near], ["auto"], ["auto"]]))
+            out.append(_grid_case(pts, quads, interior, [["auto"], ["clamp", pts[k]], ["clamp", near]]))
+            out.append(_grid_case(pts, quads, interior, [["clamp", pts[0]], ["link", pts[0], pts[k]], ["auto"], ["clamp", pts[k]]]))
+    pts, quads, interior = _lattice(3, 1, [Fr(0), Fr(0), Fr(0)])  # a strip: no non-boundary vertex, auto_optimize clamps nothing
+    out.append(_grid_case(pts, quads, interior, [["auto"], ["clamp", pts[1]], ["auto"], ["clamp", pts[1]]]))
+    return out
+
+
 def grid_cases(rng: random.Random, n: int) -> List[dict]:
-    """Histories of add_clamp / add_link on a strip of quads; positions on, near (TOL/2), just off (2 TOL), far."""
+    """Histories of add_clamp / add_link / auto_optimize on a lattice of quads (strips without and lattices with
+    non-boundary vertices); positions on, near (TOL/2), just off (2 TOL), far."""
     out = []
     for _ in range(n):
-        k = rng.randint(1, 3)
+        nx, ny = rng.choice([(1, 1), (2, 1), (3, 1), (2, 2), (2, 2), (3, 2), (2, 3), (3, 3)])
         off = [Fr(rng.randint(-8, 8), 4) for _ in range(3)]
-        pts = [[off[0] + i, off[1] + j, off[2]] for j in (0, 1) for i in range(k + 1)]
-        quads = [[i, i + 1, k + 1 + i + 1, k + 1 + i] for i in range(k)]
+        pts, quads, interior = _lattice(nx, ny, off, jitter=lambda: Fr(rng.randint(-1, 1), 8))
 
         def position():
             u = rng.random()
-            base = list(rng.choice(pts))
+            base = list(rng.choice([pts[k] for k in interior]) if interior and rng.random() < 0.5 else rng.choice(pts))
             ax = rng.randrange(3)
             if u < 0.45:
                 pass
@@ -787,17 +844,20 @@ def grid_cases(rng: random.Random, n: int) -> List[dict]:
                 base[ax] += rng.choice([-1, 1]) * TOL * 2
             else:
                 base[ax] += rng.choice([-1, 1]) * Fr(rng.randint(1, 5), 3)
-            return [_exact(fl(c)) for c in base]
+            return base
 
         ops = []
         for _ in range(rng.randint(2, 8)):
-            if rng.random() < 0.6:
-                ops.append(["clamp", [str(c) for c in position()]])
-            else:
+            u = rng.random()
+            if u < 0.5:
+                ops.append(["clamp", position()])
+            elif u < 0.8:
                 lead = position()
                 foll = lead if rng.random() < 0.15 else position()
-                ops.append(["link", [str(c) for c in lead], [str(c) for c in foll]])
-        out.append({"kind": "grid", "points": [[str(_exact(fl(c))) for c in p] for p in pts], "quads": quads, "ops": ops})
+                ops.append(["link", lead, foll])
+            else:
+                ops.append(["auto"])
+        out.append(_grid_case(pts, quads, interior, ops))
     return out
 
 
@@ -926,7 +986,8 @@ class C20(core.Check):
         "out, counts one below/at/one above, deviations 0, +-TOL/2, +-TOL(1-1e-3), +-TOL(1+1e-3), +-1e-3, +-0.5 in 8 "
         "rational frames, radii at/around equality and zero, lengths around zero), the random stream is seeded and "
         "mostly valid with random frames, origins, radii and near-boundary values (margin 1e-9 TOL from a threshold). "
-        "grid cases: histories (2..8) of add_clamp/add_link on a strip of quads with positions on / TOL/2 from / 2 TOL "
+        "grid cases: histories (2..8) of add_clamp / add_link / auto_optimize on a SketchOptimizer over a lattice of quads "
+        "(1x1..3x3; strips have no non-boundary vertex), non-boundary points jittered, positions on / TOL/2 from / 2 TOL "
         "from / far from a vertex. mesh cases: histories (1..9) of add/assemble/clear/grade/backport. proj cases: histories "
         "(2..9) of Operation.project_edge / Project.add_label on the stored edge / Operation.project_side / "
         "Face.project_edge / Face.project on one box with 2..4 labels, concentrated on two edges, plus 168 deterministic "
@@ -956,6 +1017,7 @@ class C20(core.Check):
                 boundary_cases()
                 + proj_boundary_cases()
                 + random_cases(rng, 500)
+                + grid_boundary_cases()
                 + grid_cases(rng, 80)
                 + mesh_cases(rng, 40)
                 + proj_cases(rng, 150)
@@ -964,6 +1026,7 @@ class C20(core.Check):
         return (
             boundary_cases(pair_lo=-12, pair_hi=19)
             + random_cases(rng, 20000)
+            + grid_boundary_cases()
             + grid_cases(rng, 3000)
             + mesh_cases(rng, 800)
             + proj_boundary_cases()
@@ -971,7 +1034,7 @@ class C20(core.Check):
         )
 
     def search_cases(self, rng: random.Random, tier: str) -> List[dict]:
-        return boundary_cases() + proj_boundary_cases() + random_cases(rng, 400) + grid_cases(rng, 100) + mesh_cases(rng, 40) + proj_cases(rng, 300)
+        return boundary_cases() + proj_boundary_cases() + random_cases(rng, 400) + grid_boundary_cases() + grid_cases(rng, 100) + mesh_cases(rng, 40) + proj_cases(rng, 300)
 
     # ------------------------------------------------------------------ implementation
     def run_impl(self, case: dict) -> Any:
@@ -980,7 +1043,7 @@ class C20(core.Check):
         if case["kind"] == "grid":
             pts = [[Fr(c) for c in p] for p in case["points"]]
             ops = [[op[0], *[[Fr(c) for c in v] for v in op[1:]]] for op in case["ops"]]
-            return {"outs": impl_grid(pts, case["quads"], ops)}
+            return impl_grid(pts, case["quads"], ops)
         if case["kind"] == "proj":
             return impl_proj(case["ops"])
         return {"outs": impl_mesh(case["ops"])}
@@ -994,7 +1057,7 @@ class C20(core.Check):
             v = lambda p: ",".join(rat(c) for c in p)
             pts = ";".join(v(p) for p in case["points"])
             ops = ";".join(":".join([op[0], *[v(p) for p in op[1:]]]) for op in case["ops"])
-            return [f"c20.grid {pts} {ops}"]
+            return [f"c20.grid {pts} {ops} {_lean_list([str(k) for k in case['interior']])}"]
         if case["kind"] == "proj":
             enc = []
             for o in case["ops"]:
@@ -1085,35 +1148,56 @@ class C20(core.Check):
             pts = [[Fr(c) for c in p] for p in case["points"]]
             tol2 = TOL * TOL
             near = lambda p, q: sum((a - b) ** 2 for a, b in zip(p, q)) < tol2
-            clamped = set()
-            for k, (op, got) in enumerate(zip(case["ops"], impl["outs"])):
+            interior = case["interior"]  # by construction of the lattice, not asked from the implementation
+            prev = [-1] * len(pts)  # which call put the clamp a vertex carries, as observed after the previous call
+            for k, (op, got, now) in enumerate(zip(case["ops"], impl["outs"], impl["holders"])):
+                clamped = {j for j, h in enumerate(prev) if h != -1}
+                hits: List[int] = []
                 if op[0] == "clamp":
+                    api = "GridBase.add_clamp"
                     pos = [Fr(c) for c in op[1]]
                     hits = [j for j, p in enumerate(pts) if near(p, pos)]
                     if not hits:
-                        want, site = False, "GridBase.add_clamp:no-vertex-at-position"
+                        want, site = False, api + ":no-vertex-at-position"
                     elif hits[0] in clamped:
-                        want, site = False, "GridBase.add_clamp:second-clamp-on-vertex"
+                        want, site = False, api + ":second-clamp-on-vertex"
                     else:
-                        want, site = True, "GridBase.add_clamp"
-                else:
+                        want, site = True, api
+                elif op[0] == "link":
+                    api = "GridBase.add_link"
                     lead, foll = [Fr(c) for c in op[1]], [Fr(c) for c in op[2]]
                     lh = [j for j, p in enumerate(pts) if near(p, lead)]
                     fh = [j for j, p in enumerate(pts) if near(p, foll) and j not in lh]
                     if not lh:
-                        want, site = False, "GridBase.add_link:leader-matches-no-vertex"
+                        want, site = False, api + ":leader-matches-no-vertex"
                     elif not fh:
-                        want, site = False, "GridBase.add_link:follower-matches-no-other-vertex"
+                        want, site = False, api + ":follower-matches-no-other-vertex"
                     else:
-                        want, site = True, "GridBase.add_link"
+                        want, site = True, api
+                else:  # auto_optimize clamps every non-boundary vertex: a second clamp where one of them has one
+                    api = "SketchOptimizer.auto_optimize"
+                    if any(j in clamped for j in interior):
+                        want, site = False, api + ":second-clamp-on-vertex"
+                    else:
+                        want, site = True, api
+                # whatever the outcome: a clamp that is on a vertex stays the clamp of that vertex
+                lost = [j for j in clamped if now[j] != prev[j]]
+                if lost:
+                    out.append({"site": api + ":clamp-on-vertex-replaced", "what": f"step {k} {op[0]} of {[o[0] for o in case['ops']]}: the clamp of vertex {lost[0]} (put by step {prev[lost[0]]}) was replaced ({got})", "observed": now, "expected": prev})
+                    break
                 if want and got != "accepted":
                     out.append({"site": site + ":valid-call-rejected", "what": f"step {k} {op}: {got}", "observed": got, "expected": "accepted"})
                     break
                 if not want and got == "accepted":
-                    out.append({"site": site + ":accepted", "what": f"step {k} {op} accepted", "observed": got, "expected": "an exception"})
+                    out.append({"site": site + ":accepted", "what": f"step {k} {op} of {[o[0] for o in case['ops']]} accepted; clamps before: {prev}", "observed": got, "expected": "an exception"})
                     break
-                if op[0] == "clamp" and got == "accepted":
-                    clamped.add(hits[0])
+                if got == "accepted" and op[0] == "clamp" and now[hits[0]] != k:
+                    out.append({"site": api + ":accepted-clamp-not-on-its-vertex", "what": f"step {k} {op}: {now}", "observed": now, "expected": f"vertex {hits[0]} carries the clamp of step {k}"})
+                    break
+                if got == "accepted" and op[0] == "auto" and any(now[j] == -1 for j in interior):
+                    out.append({"site": api + ":non-boundary-vertex-left-without-clamp", "what": f"step {k}: {now}", "observed": now, "expected": f"clamps on {interior}"})
+                    break
+                prev = now
             return out
         if case["kind"] == "proj":
             pair_slot = {frozenset(p): k for k, p in enumerate(SLOT_PAIR)}
